@@ -11,7 +11,8 @@ Item(k, id, form, doc, trail, gen, named, marked, lookalike, nmeth, short, oneli
 \* long: the first line of the item's comment is much longer than the directive line below it
 WithLong(it) == [it EXCEPT !.long = TRUE]
 \* nm: how a marked converter interface is called - "std"; "prefix": the name of the file's other converter interface
-\* followed by more letters (ConvergenStorage next to Convergen); "long": forty characters; "recvsame": the standard
+\* followed by more letters (ConvergenStorage next to Convergen); "long": forty characters; "alias": the standard name, declared in the alias
+\* form type X = interface {...}; "recvsame": the standard
 \* name, but the METHODS are called like the other converter interface's and carry a :recv notation
 WithNm(it, n) == [it EXCEPT !.nm = n]
 Decl(id, form, doc, trail, gen) == Item("decl", id, form, doc, trail, gen, FALSE, FALSE, FALSE, 0, FALSE, FALSE, FALSE, FALSE, 1)
@@ -62,10 +63,12 @@ InitAccept ==
 \* ---- C11: declarations and comments around a converter interface x file-level attributes
 DeclAttrs == {<<FALSE, FALSE, FALSE>>, <<TRUE, FALSE, FALSE>>, <<TRUE, TRUE, FALSE>>, <<TRUE, FALSE, TRUE>>, <<FALSE, TRUE, FALSE>>, <<FALSE, FALSE, TRUE>>}
 Forms == {"var", "func", "type", "const", "varblock", "method", "blockvar"}
+\* an ordinary interface whose doc comment has lines that begin with a colon (they are prose, not notations of a converter)
+Look(id) == Intf(id, FALSE, FALSE, TRUE, TRUE, FALSE, 1, FALSE, FALSE, FALSE, FALSE, FALSE, 1)
 InitCarry ==
   /\ \E named \in B, form1 \in Forms, a1 \in DeclAttrs, mid \in {"none", "float", "floatgen"}, long1 \in B, second \in B, pkgdoc \in B, after \in B,
         build \in {"gobuild", "plusbuild", "both"}, imports \in {"none", "used", "mixed"} :
-       \E post \in {<< >>} \cup {<<Decl("post", f, a[1], a[2], a[3])>> : f \in {"func", "type", "varblock"}, a \in DeclAttrs} :
+       \E post \in {<< >>, <<Look("lk")>>} \cup {<<Decl("post", f, a[1], a[2], a[3])>> : f \in {"func", "type", "varblock"}, a \in DeclAttrs} :
          /\ (long1 => a1[1] /\ a1[3] /\ form1 \in {"var", "func", "type"})
          /\ (second => mid = "none" /\ ~long1 /\ build = "gobuild" /\ imports = "none")      \* a long doc line matters above a go:generate line only
          /\ layout = Lay(<<IF long1 THEN WithLong(Decl("pre", form1, a1[1], a1[2], a1[3])) ELSE Decl("pre", form1, a1[1], a1[2], a1[3])>>
@@ -118,6 +121,13 @@ InitSelect ==
               b == WithNm(Medium("i2", FALSE), "recvsame")
               two == IF secondFirst THEN <<b, a>> ELSE <<a, b>> IN
           layout = LayE(two \o (IF tail THEN <<Plain("i3")>> ELSE << >>), TRUE, "gobuild", "used", "none", "none")
+     \* a converter interface written in the alias form (type X = interface {...}): an interface declared in the
+     \* input file like any other - marked or called Convergen, alone or next to an ordinary converter interface
+     \/ \E kind \in {"named", "marked"}, other \in {"none", "named", "marked", "plain"}, aliasFirst \in B :
+          /\ ~(kind = "named" /\ other = "named")
+          /\ LET a == WithNm(Mk(kind, "i1"), "alias")
+                 rest == IF other = "none" THEN << >> ELSE <<Mk(other, "i2")>> IN
+             layout = LayE(IF aliasFirst THEN <<a>> \o rest ELSE rest \o <<a>>, TRUE, "gobuild", "used", "none", "none")
   /\ Rest
 
 SpecAccept == InitAccept /\ [][Next]_vars
